@@ -62,6 +62,10 @@ fn main() {
             let stats = ccmon::mon_c07::run(&tier, seed, threads);
             finish("C07", stats, out, start.elapsed().as_secs_f64());
         }
+        "c08" => {
+            let stats = ccmon::mon_c08::run(&tier, seed);
+            finish("C08", stats, out, start.elapsed().as_secs_f64());
+        }
         "c12" => {
             let stats = ccmon::mon_c12::run(&tier, seed);
             finish("C12", stats, out, start.elapsed().as_secs_f64());
